@@ -20,6 +20,60 @@ def _k3(limits):
     return cfg
 
 
+def _k3mv(limits):
+    """A server moves, with what is placed on it, below another rack (of
+    another pod): the counters of every ancestor have to follow."""
+    cfg = cellcfg.k3(limits)
+    cfg['monitors'] = [cellmon.mon_c04]
+    cfg['allow_nocycle'] = False
+    cfg['events'] = cellcfg.ev(
+        ('add', 'la'), ('add', 'lb'), ('add', 'fill'), ('rm', 0),
+        ('smv', 's1', 'rack:2'), ('smv', 's1', 'rack:0'),
+        ('smv', 's3', 'rack:1'), ('smv', 's3', 'rack:2'),
+        ('down', 's0'), ('up', 's0'), ('noop',),
+    )
+    return cfg
+
+
+def _k6(limits):
+    """One rack of three servers: a pending instance blocked only by the
+    rack/pod/cell limit, a running holder of that limit sharing its server,
+    and an instance that cannot be placed anywhere and evicts in vain."""
+    cfg = {
+        'buckets': [('pod:0', None, 'pod'), ('rack:0', 'pod:0', 'rack')],
+        'partitions': ['_default'],
+        'servers': {
+            's0': {'parent': 'rack:0', 'variants': [{'cap': [10, 10, 10]}]},
+            's1': {'parent': 'rack:0', 'variants': [{'cap': [10, 10, 10]}]},
+            's2': {'parent': 'rack:0', 'variants': [{'cap': [10, 10, 10]}]},
+        },
+        'allocs': {'a': {'partition': '_default', 'variants': [{'rank': 100}]}},
+        'templates': {
+            'T': {'prio': 100, 'demand': [10, 10, 10], 'aff': 'fill'},
+            'Z': {'prio': 100, 'demand': [5, 5, 5], 'aff': 'z'},
+            'V': {'prio': 10, 'demand': [3, 3, 3], 'aff': 'lim',
+                  'limits': limits},
+            'P': {'prio': 50, 'demand': [6, 6, 6], 'aff': 'lim',
+                  'limits': limits},
+            'X': {'prio': 60, 'demand': [11, 11, 11], 'aff': 'x'},
+        },
+        'max_apps': 7,
+        'events': [],
+    }
+    cfg['monitors'] = [cellmon.mon_c04]
+    cfg['allow_nocycle'] = False
+    cfg['events'] = cellcfg.ev(
+        ('add', 'P'), ('add', 'X'), ('add', 'V'), ('add', 'Z'),
+        ('rm', 0), ('rm', 2), ('rm', 4), ('rm', 5), ('noop',),
+    )
+    cfg['seeds'] = [
+        (),
+        (('add', 'T', True), ('add', 'Z', True), ('add', 'T', True),
+         ('add', 'V', True), ('rm', 2, True)),
+    ]
+    return cfg
+
+
 LIMITS = {
     'server1': {'server': 1},
     'rack1': {'rack': 1},
@@ -59,8 +113,18 @@ def configs(ctx):
     if ctx.quick:
         return [('K3-' + k, _k3(LIMITS[k]), 4, 0)
                 for k in ('rack1', 'pod1', 'cell2', 'server1pod2')] + \
+            [('K3mv-pod2', _k3mv({'pod': 2}), 4, 0),
+             ('K3mv-rack1cell2', _k3mv({'rack': 1, 'cell': 2}), 4, 0),
+             ('K6-rack1', _k6({'rack': 1}), 3, 0),
+             ('K6-cell1', _k6({'cell': 1}), 3, 0)] + \
             [('M6', _m6(), 4, 0, _masterprop.MasterSpec)]
     return [('K3-' + k, _k3(v), 6, 0) for k, v in LIMITS.items()] + \
+        [('K3mv-pod2', _k3mv({'pod': 2}), 6, 0),
+         ('K3mv-rack1cell2', _k3mv({'rack': 1, 'cell': 2}), 6, 0),
+         ('K3mv-pod1', _k3mv({'pod': 1}), 6, 0),
+         ('K6-rack1', _k6({'rack': 1}), 5, 0),
+         ('K6-pod1', _k6({'pod': 1}), 5, 0),
+         ('K6-cell1', _k6({'cell': 1}), 5, 0)] + \
         [('M6', _m6(), 6, 0, _masterprop.MasterSpec)]
 
 
